@@ -157,6 +157,7 @@ def run(keep=False) -> dict:
         if not ok:
             res["ok"] = False
             res["disagreements"].append({"function": t.function, "input": None, "python": f"must be refused ({want})", "lean": err or "was translated"})
+    lock_selftest(res)
     targets = all_targets["Selftest"]
     tmp = Path(tempfile.mkdtemp(prefix="py2lean_selftest_"))
     try:
@@ -395,6 +396,120 @@ def run(keep=False) -> dict:
             shutil.rmtree(tmp, ignore_errors=True)
 
 
+# ---- lock discipline records (builder B10) -----------------------------------------------------------------------
+# expected `lock_discipline` record of every method of corpus/locked.py (fields at their default are left out) and whether
+# `LockInfo.Atomic` (lean/PyodaGen/LockInfo.lean) must hold for it
+_G = {"lock": "__lock", "allGuarded": True, "sections": 1}
+LOCK_EXPECT = {
+    "Guarded.__init__": ({"lock": "__lock", "writes": ["__label", "__n", "__step"], "shared": ["__n", "__step"], "allGuarded": False}, False),
+    "Guarded.bump": ({**_G, "reads": ["__n", "__step"], "writes": ["__n"], "shared": ["__n", "__step"]}, True),
+    "Guarded.peek": ({**_G, "reads": ["__n"], "shared": ["__n"]}, True),
+    "Guarded.set_step": ({**_G, "writes": ["__step"], "shared": ["__step"]}, True),
+    "Guarded.label": ({"lock": "__lock", "reads": ["__label"]}, True),
+    "Guarded.bump_by_label": ({"lock": "__lock", "stepsOutside": ["bump"]}, True),
+    "Guarded.renamed": ({**_G, "reads": ["__n", "__step"], "writes": ["__n"], "shared": ["__n", "__step"]}, True),
+    "Sloppy.__init__": ({"lock": "__lock", "writes": ["__cb", "__items", "__n", "__other"], "shared": ["__items", "__n"], "allGuarded": False}, False),
+    "Sloppy.ok": ({**_G, "reads": ["__n"], "writes": ["__n"], "shared": ["__n"]}, True),
+    "Sloppy.leak": ({**_G, "writes": ["__n"], "shared": ["__n"], "allGuarded": False}, False),
+    "Sloppy.early_read": ({**_G, "reads": ["__n"], "writes": ["__n"], "shared": ["__n"], "allGuarded": False}, False),
+    "Sloppy.split": ({**_G, "reads": ["__n"], "writes": ["__n"], "shared": ["__n"], "sections": 2}, False),
+    "Sloppy.reenter": ({**_G, "selfCallsInside": ["ok"]}, False),
+    "Sloppy.twice": ({"lock": "__lock", "stepsOutside": ["ok", "ok"]}, False),
+    "Sloppy.wrong_lock": ({"lock": "__lock", "reads": ["__other"], "writes": ["__n"], "shared": ["__n"], "allGuarded": False}, False),
+    "Sloppy.manual": ({"lock": "__lock", "writes": ["__n"], "shared": ["__n"], "allGuarded": False}, False),
+    "Sloppy.in_place": ({"lock": "__lock", "writes": ["__items"], "shared": ["__items"], "allGuarded": False}, False),
+    "Sloppy.call_back": ({**_G, "reads": ["__cb", "__n"], "writes": ["__n"], "shared": ["__n"], "callbacksInside": ["__cb"]}, True),
+    "Bare.__init__": ({"writes": ["__base", "__slots"], "shared": ["__slots"], "allGuarded": False, "gilOnly": True, "gilOps": ["store __slots"]}, False),
+    "Bare.get": ({"reads": ["__base", "__slots"], "writes": ["__slots"], "shared": ["__slots"], "allGuarded": False, "gilOnly": True,
+                  "gilOps": ["load __slots[·]", "store __slots[·]"]}, False),
+    "Wrapper.__init__": ({"writes": ["__inner", "__tag"]}, True),
+    "Wrapper.tag": ({"reads": ["__tag"]}, True),
+    "Wrapper.read": ({"reads": ["__inner"], "stepsOutside": ["__inner.bump"]}, True),
+    "Wrapper.tagged": ({"stepsOutside": ["read"]}, True),
+    "Wrapper.both": ({"reads": ["__inner"], "stepsOutside": ["read", "__inner.peek"]}, False),
+}
+LOCK_DEFAULT = {"lock": "", "reads": [], "writes": [], "shared": [], "allGuarded": True, "sections": 0, "selfCallsInside": [],
+                "callbacksInside": [], "stepsOutside": [], "gilOnly": False, "gilOps": []}
+
+
+def lock_selftest(res: dict) -> None:
+    """The lock discipline records: (1) `lock_discipline` on every method of corpus/locked.py against LOCK_EXPECT, with and
+    without the lock being declared by the target group; (2) the records are emitted with the definitions of a group that
+    declares "locks" (and not otherwise); (3) Lean decides `LockInfo.Atomic` on the rendered records as expected."""
+    import ast
+
+    def fail(fn, want, got):
+        res["ok"] = False
+        res["disagreements"].append({"function": "lock." + fn, "input": None, "python": want, "lean": got})
+    tree = ast.parse((ROOT / "corpus" / "locked.py").read_text())
+    seen, lean = set(), ["import PyodaGen.LockInfo", "open Pyoda.Gen", ""]
+    order = []
+    for cls in [c for c in tree.body if isinstance(c, ast.ClassDef)]:
+        for fn in py2lean._self_methods(cls):
+            name = f"{cls.name}.{fn.name}"
+            seen.add(name)
+            if name not in LOCK_EXPECT:
+                fail(name, "an entry of LOCK_EXPECT", "missing")
+                continue
+            want = {**LOCK_DEFAULT, **LOCK_EXPECT[name][0]}
+            for declared in (["self.__lock"], []):
+                got = py2lean.lock_discipline(cls, fn, declared)
+                if got != want:
+                    fail(name, json.dumps(want, ensure_ascii=False), json.dumps(got, ensure_ascii=False))
+            ident = "r" + str(len(order))
+            order.append(name)
+            lean += py2lean.render_lock_info(ident, name, py2lean.lock_discipline(cls, fn, ["self.__lock"]))
+            lean.append(f'#eval IO.println ("{name} " ++ toString (decide {ident}.lockInfo.Atomic))')
+    for name in LOCK_EXPECT:
+        if name not in seen:
+            fail(name, "a method of corpus/locked.py", "not found")
+    # (2) emission
+    tg = py2lean.load_targets(ROOT / "targets.py")["SelftestLock"]
+    for with_locks in (True, False):
+        cfg = dict(tg)
+        if not with_locks:
+            cfg.pop("locks")
+        gen = py2lean.Gen("SelftestLock", cfg, py2lean.Source(ROOT))
+        gen.translate_all()
+        text = gen.render() if not gen.errors else ""
+        if with_locks:
+            if gen.errors:
+                fail("emission", "SelftestLock translates", str(gen.errors)[:300])
+            for t in gen.targets:
+                cls = next(c for c in tree.body if isinstance(c, ast.ClassDef) and c.name == t.cls)
+                fn = next(f for f in cls.body if isinstance(f, ast.FunctionDef) and f.name == t.function)
+                block = "\n".join(py2lean.render_lock_info(t.lean_name, f"{t.file}: {t.cls}.{t.function}", py2lean.lock_discipline(cls, fn, ["self.__lock"])))
+                if block not in text:
+                    fail("emission." + t.lean_name, block, "not in the generated file")
+            if "import PyodaGen.LockInfo" not in text:
+                fail("emission", "import PyodaGen.LockInfo", "missing")
+        elif "lockInfo" in text or not gen.errors:
+            # without "locks" the `with` statements are refused: nothing is emitted for a group that does not ask for it
+            fail("emission", "no records (and `with` refused) without \"locks\"", text[-200:])
+    # (3) Lean's verdicts
+    tmp = Path(tempfile.mkdtemp(prefix="py2lean_locktest_"))
+    try:
+        (tmp / "LockEval.lean").write_text("\n".join(lean) + "\n")
+        b = subprocess.run(["lake", "build", "PyodaGen.LockInfo"], cwd=LEAN, capture_output=True, text=True, timeout=3600)
+        if b.returncode != 0:
+            raise RuntimeError("lake build PyodaGen.LockInfo failed: " + (b.stdout + b.stderr)[-400:])
+        pin = ["taskset", "-c", str(os.getpid() % (os.cpu_count() or 1))] if Path("/usr/bin/taskset").exists() else []
+        c = subprocess.run(pin + ["lake", "env", "lean", str(tmp / "LockEval.lean")], cwd=LEAN, capture_output=True, text=True, timeout=1800)
+        if c.returncode != 0:
+            res["ok"] = False
+            res["errors"].append({"function": "lock.*", "error": "the rendered records do not compile: " + (c.stdout + c.stderr)[-800:]})
+            return
+        verdicts = dict(ln.rsplit(" ", 1) for ln in c.stdout.split("\n") if ln.strip())
+        for name in order:
+            want = "true" if LOCK_EXPECT[name][1] else "false"
+            if verdicts.get(name) != want:
+                fail(name + ".Atomic", want, str(verdicts.get(name)))
+        res["lock_records"] = len(order)
+        res["functions"] += 0
+    finally:
+        shutil.rmtree(tmp, ignore_errors=True)
+
+
 def main() -> int:
     ap = argparse.ArgumentParser()
     ap.add_argument("--json", action="store_true")
@@ -408,7 +523,7 @@ def main() -> int:
     if a.json:
         print(json.dumps(r, indent=1))
     else:
-        print(f"py2lean selftest: {r['functions']} functions, {r['evaluations']} evaluations, {sum(1 for v in r['refused'].values() if v['ok'])}/{len(r['refused'])} unsupported constructs refused, {len(r['disagreements'])} disagreement(s) shown, "
+        print(f"py2lean selftest: {r['functions']} functions, {r['evaluations']} evaluations, {sum(1 for v in r['refused'].values() if v['ok'])}/{len(r['refused'])} unsupported constructs refused, {r.get('lock_records', 0)} lock records, {len(r['disagreements'])} disagreement(s) shown, "
               f"{len(r['errors'])} error(s) -> {'OK' if r['ok'] else 'FAILED'}")
         for e in r["errors"]:
             print("  error:", e)
